@@ -229,9 +229,17 @@ class Prop:
         off = rng.choice([None, None, None, 37, 123, 411])
         if off and kind not in ("boundaries", "toggle") and not sc.get("when_sync"):
             sc["sub2_t"] = 205 + off
+        elif not sc["buffer"] and kind != "toggle" and rng.random() < 0.3:
+            sc["outer_take"] = rng.choice([1, 2, 3])
         return sc
 
     def build(self, w, sc):
+        if sc.get("outer_take"):
+            # the consumer takes the first k windows and lets go of the outer sequence: a window that is still open (and subscribed)
+            # keeps receiving its elements and closes at its own boundary
+            inner = dict(sc)
+            inner.pop("outer_take")
+            return self.build(w, inner).pipe(ops.take(sc["outer_take"]))
         k, buf = sc["kind"], sc["buffer"]
         s = w.sources[sc["src"]]
         if k == "count":
@@ -333,6 +341,10 @@ class Prop:
                     res.append((float(t), "E", models.ekey(v)))
                 else:
                     res.append((float(t), "C", None))
+            if sc.get("outer_take"):
+                nth = [i for i, e in enumerate(res) if e[1] == "N"][sc["outer_take"] - 1:sc["outer_take"]]
+                if nth:
+                    res = res[:nth[0] + 1] + [(res[nth[0]][0], "C", None)]
             return strip(trunc(res))
 
         w, rec, wants = tm.compare(sc, self.build, self.model, out, desc, got_fn=got_fn, want_fn=want_fn, follow=True)
